@@ -10,7 +10,7 @@ def table_observations(tier, seed):
     sizes = (1, 2, 254, 255, 256, 510, 511, 700) if tier == "quick" else (1, 2, 3, 253, 254, 255, 256, 257, 509, 510, 511, 512, 765, 766, 1000)
     with open(scen, "w") as f:
         for rows in sizes:
-            for dmg in ("rowscount", "pk-out-of-range"):
+            for dmg in ("rowscount", "pk-out-of-range", "keyed-then-keyless"):
                 for kp in (0, 1, 2):
                     f.write(json.dumps({"seed": seed, "idx": i, "damage": dmg, "rows": rows, "keypos": kp}) + "\n")
                     i += 1
